@@ -161,3 +161,27 @@ Print Assumptions C02_prepared_stable.
 Theorem C02_prepare_gives_prepared : forall c r r1, wf_corners r -> prepare c r = Ok r1 -> prepared c r1 /\ wf_corners r1.
 Proof. exact prepare_gives_prepared. Qed.
 Print Assumptions C02_prepare_gives_prepared.
+
+(* clear() (generated from data_container.py) leaves both lists of a corner container empty *)
+Theorem C02_corner_clear_spec : forall e a, corner_clear e a = ([], []).
+Proof. exact corner_clear_spec. Qed.
+Print Assumptions C02_corner_clear_spec.
+
+(* re-wrapped data edited in any way (r arbitrary), its three corner containers cleared, built again: one (element, owner)
+   record per face-vertex, cell-vertex and cell-face incidence of the NEW faces and cells, owners included *)
+Theorem C02_rebuild_after_clear_and_edit : forall c r p2, Forall cell_ok (cells r) -> prepare c (clear3 r) = Ok p2 ->
+  combine (fc_elem p2) (fc_adj p2) = incidences (faces p2)
+  /\ combine (cc_elem p2) (cc_adj p2) = incidences (cells p2)
+  /\ cells p2 = cells r
+  /\ cf_adj p2 = cf_owners (enumerate (cells r))
+  /\ Forall2 (face_ref (faces p2)) (cf_elem p2) (flat_map cfc_cell_faces (cells r))
+  /\ length (cf_elem p2) = length (cf_adj p2).
+Proof. exact rebuild_after_clear_thm. Qed.
+Print Assumptions C02_rebuild_after_clear_and_edit.
+
+(* RawMeshData(mesh), clear() of any corner containers, build again: nothing changes *)
+Theorem C02_rebuild_after_clears_changes_nothing : forall c dim r k r1 es,
+  fresh_corners r -> instanciate c dim r = Ok (k, r1) -> Forall is_corner_clear es ->
+  exists r2, rebuild c dim es k r1 = Ok (k, r2) /\ raw_equiv r2 (rewrap k r1).
+Proof. exact rebuild_after_clears_thm. Qed.
+Print Assumptions C02_rebuild_after_clears_changes_nothing.
